@@ -1,7 +1,7 @@
 //! C20 (binding B): real threads sharing one Parser (lazy partial store) and
 //! its Templates; records Call / Miss / Return events for Trace_Threads.tla.
 use crate::util::Rng;
-use liquid::partials::{LazyCompiler, PartialSource};
+use liquid::partials::{LazyCompiler, OnDemandCompiler, PartialSource};
 use serde_json::{json, Value as J};
 use std::borrow::Cow;
 use std::collections::HashMap;
@@ -56,10 +56,14 @@ fn sources() -> HashMap<String, String> {
     m.insert("p2".into(), "<{{ v }}{% for k in (1..3) %}{% if k == 2 %}{% break %}{% endif %}{{ k }}{% endfor %}{% assign w = v %}>".into());
     m.insert("q.liquid".into(), "Q{% include 'p1' %}".into());
     m.insert("b1".into(), "{% if x %}unclosed".into());
+    // a partial that includes, through a name taken from the data, itself (depth bounded by the data) or a leaf,
+    // so that one tag instance is used recursively by one thread and with another name by another thread
+    m.insert("node".into(), "({{ n }}{% include 'leaf' %}{% if n < 4 %}{% assign n = n | plus: 1 %}{% include nm %}{% endif %})".into());
+    m.insert("leaf".into(), ".".into());
     m
 }
 
-const TEMPLATES: [&str; 7] = [
+const TEMPLATES: [&str; 9] = [
     "{% include 'p1' %}|{% cycle 'a','b' %}{% cycle 'a','b' %}{% increment c %}{% ifchanged %}x{% endifchanged %}{% ifchanged %}x{% endifchanged %}{% include 'p1' %}",
     "{% for i in (1..3) %}{% render 'p2', v: i %}{% if i == 2 %}{% break %}{% endif %}{% endfor %}{% capture q %}{% include 'p1' %}{% endcapture %}{{ q }}{{ q }}",
     "a{% include 'b1' %}b",
@@ -67,15 +71,17 @@ const TEMPLATES: [&str; 7] = [
     "{% include pv %}{% decrement d %}{% render 'q' %}",
     "{% for i in (1..4) %}{% cycle 'o','e' %}{% continue %}never{% endfor %}{% render pv, v: 7 %}",
     "{% if v %}{% render 'b1' %}{% else %}{% include 'p2' %}{% endif %}",
+    "{% assign n = 1 %}{% include 'node' %}",
+    "{% assign n = 3 %}{% include 'node' %}|{% render 'node', n: 2 %}",
 ];
 const PARSE_SOURCES: [&str; 4] = ["{{ a | upcase }}{% if a %}x{% endif %}", "{% if %}", "{% for i in (1..2) %}{{i}}", "plain {{ 'text' }}"];
 
 fn datas() -> Vec<liquid::Object> {
     vec![
-        liquid::object!({"v": 1, "pv": "p1"}),
-        liquid::object!({"v": "two", "pv": "p2"}),
-        liquid::object!({"pv": "b1"}),
-        liquid::object!({"v": false, "pv": "nosuch"}),
+        liquid::object!({"v": 1, "pv": "p1", "nm": "node"}),
+        liquid::object!({"v": "two", "pv": "p2", "nm": "leaf"}),
+        liquid::object!({"pv": "b1", "nm": "node"}),
+        liquid::object!({"v": false, "pv": "nosuch", "nm": "p1"}),
     ]
 }
 
@@ -92,13 +98,50 @@ fn outcome(r: Result<String, liquid::Error>) -> J {
     }
 }
 
-fn build(log: Option<Log>, dwell_us: u64) -> liquid::Parser {
+fn build(log: Option<Log>, dwell_us: u64, policy: &str) -> liquid::Parser {
     let src = LoggingSource { map: sources(), log, inside: AtomicUsize::new(0), seq: AtomicUsize::new(0), dwell_us };
-    liquid::ParserBuilder::with_stdlib().partials(LazyCompiler::new(src)).build().expect("parser")
+    let b = liquid::ParserBuilder::with_stdlib();
+    match policy {
+        // compiles on every use, without a lock: every look-up reaches the source (and dwells there)
+        "ondemand" => b.partials(OnDemandCompiler::new(src)).build().expect("parser"),
+        _ => b.partials(LazyCompiler::new(src)).build().expect("parser"),
+    }
+}
+
+/// A sink that dawdles: stretches every window in which the renderer holds something across a write.
+struct SlowWriter {
+    buf: Vec<u8>,
+    delay_us: u64,
+    n: u64,
+}
+impl Write for SlowWriter {
+    fn write(&mut self, b: &[u8]) -> std::io::Result<usize> {
+        self.n += 1;
+        if self.n % 2 == 0 {
+            std::thread::sleep(std::time::Duration::from_micros(self.delay_us));
+        } else {
+            std::thread::yield_now();
+        }
+        self.buf.extend_from_slice(b);
+        Ok(b.len())
+    }
+    fn flush(&mut self) -> std::io::Result<()> {
+        Ok(())
+    }
+}
+
+thread_local! {
+    static SINK_DELAY: std::cell::Cell<u64> = const { std::cell::Cell::new(0) };
 }
 
 fn exec(parser: &liquid::Parser, templates: &[liquid::Template], data: &[liquid::Object], op: Op) -> J {
+    let delay = SINK_DELAY.with(|d| d.get());
     match op {
+        Op::Render(i, j) if delay > 0 => {
+            let mut w = SlowWriter { buf: Vec::new(), delay_us: delay, n: 0 };
+            let r = templates[i].render_to(&mut w, &data[j]);
+            outcome(r.map(|_| String::from_utf8_lossy(&w.buf).into_owned()))
+        }
         Op::Render(i, j) => outcome(templates[i].render(&data[j])),
         Op::Parse(k) => json!({"ok": parser.parse(PARSE_SOURCES[k]).is_ok()}),
     }
@@ -123,13 +166,13 @@ pub fn main(args: &[String]) -> i32 {
     let mut alone: HashMap<String, J> = HashMap::new();
     for ti in 0..TEMPLATES.len() {
         for dj in 0..data.len() {
-            let p = build(None, 0);
+            let p = build(None, 0, "lazy");
             let t: Vec<liquid::Template> = TEMPLATES.iter().map(|s| p.parse(s).expect("template parses")).collect();
             alone.insert(format!("r{ti}.{dj}"), exec(&p, &t, &data, Op::Render(ti, dj)));
         }
     }
     for k in 0..PARSE_SOURCES.len() {
-        let p = build(None, 0);
+        let p = build(None, 0, "lazy");
         alone.insert(format!("p{k}"), exec(&p, &[], &data, Op::Parse(k)));
     }
     let alone = Arc::new(alone);
@@ -141,7 +184,9 @@ pub fn main(args: &[String]) -> i32 {
         let dwell = [0u64, 0, 50, 300, 1500][rng.below(5)];
         let per_thread = 3 + rng.below(5);
         let log: Log = Arc::new(Mutex::new(Vec::new()));
-        let parser = Arc::new(build(Some(log.clone()), dwell));
+        let policy = if rng.chance(1, 3) { "ondemand" } else { "lazy" };
+        let sink_delay = [0u64, 0, 20, 200][rng.below(4)];
+        let parser = Arc::new(build(Some(log.clone()), dwell, policy));
         let templates: Arc<Vec<liquid::Template>> =
             Arc::new(TEMPLATES.iter().map(|s| parser.parse(s).expect("template parses")).collect());
         let barrier = Arc::new(Barrier::new(n));
@@ -164,6 +209,7 @@ pub fn main(args: &[String]) -> i32 {
             std::thread::spawn(move || {
                 let tid = ti + 1;
                 TID.with(|t| t.set(tid));
+                SINK_DELAY.with(|d| d.set(sink_delay));
                 let mut yr = Rng::new(yseed);
                 barrier.wait();
                 if skew > 0 {
@@ -194,7 +240,7 @@ pub fn main(args: &[String]) -> i32 {
             }
         }
         let evs = log.lock().unwrap().clone();
-        let reset = json!({"e": "Reset", "run": run, "threads": n, "dwell_us": dwell});
+        let reset = json!({"e": "Reset", "run": run, "threads": n, "dwell_us": dwell, "policy": policy, "sink_delay_us": sink_delay});
         let _ = writeln!(f, "{}", reset);
         events += 1;
         for e in &evs {
